@@ -450,7 +450,7 @@ func genC06Bound(t *rapid.T, base int, today int, label string) c06Bound {
 }
 
 func genC06(t *rapid.T) c06Case {
-	layout := []string{"", "", "2006-01-02", "02.01.2006", "2006/02/01", "06/01/02", "2006/1/2", "January 2, 2006", "Mon 2 Jan 2006", "20060102"}[rapid.IntRange(0, 9).Draw(t, "layout")]
+	layout := []string{"", "", "2006-01-02", "02.01.2006", "2006/02/01", "06/01/02", "2006/1/2", "January 2, 2006", "Mon 2 Jan 2006", "20060102", "2006-01-02T15:04", "2006-01-02T15:04:05Z07:00", "Jan 2 2006 3:04PM"}[rapid.IntRange(0, 12).Draw(t, "layout")]
 	c06NoFar = layout == "06/01/02"
 	defer func() { c06NoFar = false }()
 	// windows incl. month, year and leap-day boundaries and daylight-saving changes (2021-03-14 Havana/US, 2021-03-28 EU,
